@@ -76,7 +76,7 @@ MCItems3(u) == AbsLeaves \cup
    NotO(SC(AB, "gt0", TRUE), FALSE)}
 MCDepth3(u) == ObjsOver(MCItems3(u), 2)
 \* Filter universes
-FilterAsts(u) == ObjsOver({Str(A1), Fn("pos")}, 2) \cup SCFew
+FilterAsts(u) == ObjsOver({Fn("len"), Fn("pos")}, 2) \cup SCFew \cup {Sel(Str(A1), TRUE)}
 
 \* export universes (S2C): concrete leaves, all eight values per specification
 ExDepth1(u) == ObjsOver(ConcLeaves, 2) \cup SCs
